@@ -125,15 +125,21 @@ CHECKS = {
          "code hands over through a hook on every such input: tag +guess-model-differs, never seen). For longer magnitudes the back-up path (libm exp10, f32) is not modelled: there the premise |1 - x g| <= 94/100 is "
          "observed on every generated input (tag +guess-beyond-94-percent, never seen). Trusted: Lean kernel, extractor, harness/driver.",
          "Lean 4 proof (termination and accuracy of the Newton iteration with rounding) + exact per-input test + differential correspondence", "DESIGN.md §5 C12"),
- "C13": ("PARTIAL BY NATURE. Lean model of exp (series loop with exact powers/factorials, impl_division per term - whose correct rounding is the theorem of C08 -, convergence test on the value "
-         "trimmed to precision+5 digits, e^-x = 1/e^x). Kernel-checked for ALL arguments: C13_positive (whatever the routine returns is strictly positive - loop invariant over term, factorial, partial sum; "
-         "positivity of impl_division, of the reciprocal and of the with_prec trimming - under the scalar condition EstOK on the digit estimate; C13_positive_code instantiates it with the code's own f64 estimate up to 2^40 bits, proved in C18_est_code), "
-         "C13_negative_is_reciprocal, exp(0) = 1. NOT proved: that the stopping test implies the tail is negligible, hence the one-unit bound for every x. "
-         "That gap is closed per sampled input: every result of the real code is judged against a rational enclosure of e^x computed in outward-rounded interval arithmetic (scaling and squaring, "
-         "Taylor partial sums with remainder bound) - strictly positive, configured digit count, within one unit of the last digit - and compared exactly with the model; ordered pairs check the "
-         "two-ulp order property.",
-         "The oracle itself is verified: C13_enclosure_sound proves that the interval it computes contains Real.exp x (Mathlib) for EVERY decimal argument and working precision (Taylor partial sums with the remainder bounded by the last term for y <= 1/2, outward-rounded fixed point, j squarings, reciprocal), and C13_oracle_accepts_only_one_ulp that an accepted result is within one unit in the last place of e^x. Trusted: Lean kernel, Mathlib, extractor, harness/driver. The headline bound is still established per sampled input (by a verified oracle), not for every x.",
-         "Lean 4 executable model + interval-arithmetic oracle + differential correspondence; partial proof", "DESIGN.md §5 C13"),
+ "C13": ("Lean model of exp (series loop with exact powers/factorials, impl_division per term - whose correct rounding is the theorem of C08 -, convergence test on the value "
+         "trimmed to precision+5 digits, e^-x = 1/e^x). Kernel-checked against Mathlib's Real.exp, for EVERY non-zero decimal with |x| <= 1000 (the range the property quantifies over), every precision >= 1 "
+         "and the code's own f64 digit estimate: C13_accuracy_to_1000_code - whatever exp returns is strictly positive and STRICTLY LESS than one unit of its last digit away from the real e^x "
+         "(0.61 units for x > 0, 2/3 for x < 0); C13_order_two_ulp - x < y never yields exp(x) exceeding exp(y) by more than two units of the last place; C13_digit_count (exactly P digits); exp(0) = 1; "
+         "C13_positive for every argument whatsoever. Proof: loop invariant over term = x^(n-1), factorial = (n-1)!, running sum within relative 1/2*10^(1-T) of the exact partial sum "
+         "(T = P+17+digits(x), from the correct rounding of impl_division); the stopping rule bounds the last term by 2*rho'*sum (rho' = 1/2*10^(1-(P+5))); while N <= |x| the terms still grow and the rule "
+         "cannot fire (no_stop_before_peak), so the stop comes at N > |x| where the unsummed tail of the real series is at most |x| last terms (exp_tail_geom, from Mathlib's HasSum of the exponential series); "
+         "the 5 guard digits absorb the factor 2|x|+3; the final with_prec(P), and for negative arguments the P-digit reciprocal, add at most 0.55 units. For |x| > 1000 the same bound holds under "
+         "a decidable premise on the stop index N (101|x| <= 100(N+1): C13_accuracy_code), which the driver evaluates on every input (tag +stop-premise-fails). "
+         "The theorems are partial correctness (they speak about whatever is returned within the model's fuel; termination itself is observed per input: the model returning none is a mismatch). "
+         "Correspondence: every result of the real code is compared exactly with the model and independently judged against a rational enclosure of e^x in outward-rounded interval arithmetic "
+         "(strictly positive, configured digit count, within one unit of the last digit); ordered pairs check the two-ulp order property.",
+         "The per-input oracle is itself verified: C13_enclosure_sound (the interval contains Real.exp x for every decimal argument and working precision) and C13_oracle_accepts_only_one_ulp. "
+         "Axioms of every theorem: propext, Classical.choice, Quot.sound only. Trusted: Lean kernel, Mathlib (Real.exp and its series), extractor, harness/driver; the fuel bound (<= 90000 iterations; the driver uses 20000; the real loop is unbounded).",
+         "Lean 4 proof (loop invariant + stopping rule + Taylor tail vs Mathlib Real.exp) + verified interval oracle per input + differential correspondence", "DESIGN.md §5 C13"),
  "C14": ("Kernel-checked Lean theorems: for ALL f32 and f64 bit patterns the model of try_parse_from_f32/f64 (normal path with trailing-zero reduction and powers of five, subnormal routines with the "
          "multi-limb constants regenerated from the source, +-0) denotes exactly the IEEE value (-1)^s m 2^e, NaN/inf give errors (C14_ofF32_exact, C14_ofF64_exact, C14_nan_inf); the limb constants "
          "equal 5^149 and 5^1074 (kernel evaluation). Correspondence: exact comparison on every exponent field and random patterns; bit-exact f -> decimal -> f64 round trip; to_f64 on arbitrary "
